@@ -130,6 +130,11 @@ theorem C01.elem_op_correct (lc : LC K) (h : LCSpec lc) (op : Op) (x y t : Nat) 
     exact ⟨_, t, rfl, by simp [Op.inPlace], by simp [Op.spec, multiply, Mem.write], fun b hb _ => by simp [multiply, Mem.write, hb]⟩
   case divE =>
     exact ⟨_, t, rfl, by simp [Op.inPlace], by simp [Op.spec, divide, Mem.write], fun b hb _ => by simp [divide, Mem.write, hb]⟩
+  case rsubE =>
+    obtain ⟨m', e, s1, s2⟩ := h ⟨y, x, t⟩ 1 (-1) m
+    exact ⟨m', t, by simp [Op.exec, e], by simp [Op.inPlace], by simpa [Op.spec] using s1, fun b hb _ => s2 b hb⟩
+  case rdivE =>
+    exact ⟨_, t, rfl, by simp [Op.inPlace], by simp [Op.spec, divide, Mem.write], fun b hb _ => by simp [divide, Mem.write, hb]⟩
   case addS =>
     obtain ⟨m', e, s1, s2⟩ := h ⟨x, t, t⟩ 1 c (one t m)
     refine ⟨m', t, by simp [Op.exec, e], by simp [Op.inPlace], ?_, ?_⟩
